@@ -39,7 +39,7 @@ OPN = {1: "vec_znx_normalize", 2: "vec_znx_normalize_assign", 3: "vec_znx_rsh", 
        101: "lwe_encrypt_sk", 102: "lwe_decrypt", 103: "glwe_encrypt_sk", 104: "glwe_encrypt_pk", 105: "glwe_decrypt",
        106: "glwe_keyswitch", 107: "glwe_keyswitch_assign", 108: "glwe_external_product", 109: "glwe_external_product_assign",
        110: "glwe_automorphism", 111: "glwe_automorphism_add", 112: "glwe_trace", 113: "glwe_normalize", 114: "glwe_rsh",
-       115: "glwe_rotate_assign", 116: "glwe_mul_const", 117: "glwe_lsh_assign", 118: "glwe_public_key_generate", 120: "gglwe_prepare", 121: "ggsw_prepare", 122: "gglwe_keyswitch",
+       115: "glwe_rotate_assign", 116: "glwe_mul_const", 117: "glwe_lsh_assign", 118: "glwe_public_key_generate", 119: "glwe_trace_assign", 120: "gglwe_prepare", 121: "ggsw_prepare", 122: "gglwe_keyswitch",
        123: "gglwe_external_product", 124: "ggsw_external_product", 125: "glwe_mul_plain", 126: "glwe_tensor_apply",
        130: "gglwe_encrypt_sk", 131: "ggsw_encrypt_sk", 132: "glwe_switching_key_encrypt_sk", 133: "glwe_automorphism_key_encrypt_sk",
        134: "glwe_tensor_key_encrypt_sk", 135: "gglwe_to_ggsw_key_encrypt_sk", 136: "lwe_switching_key_encrypt_sk",
@@ -84,24 +84,8 @@ def classify(record):
         return f"{name}.scratch_dependent" if eq == 0 else None
     if op == 60:
         return "scratch_split_mut.unaligned_len"
-    if op == 55:
-        return "cnv_pairwise_apply_dft.args_swapped"
-    if op == 116:
-        return "glwe_mul_const.underestimate"
-    if op in (125, 126, 149, 150, 152, 165):
-        return f"{name}.cnv_args_swapped"
-    if op in (140, 141, 146):
-        return f"{name}.expand_rows_res_dft"
-    if op == 147:
-        return "glwe_pack.trace_inner_assert"
-    if op == 112:
-        return "glwe_trace.inner_assert"
     if n < 8:
         return f"{name}.small_n_unaligned"
-    if op in (104, 105) and ntt and -(-ps[3] // ps[2]) == 1:
-        return f"{name}.ntt120_one_limb"
-    if op == 111 and ntt and ps[8] != ps[14]:
-        return "glwe_automorphism_add.ntt120_cross_radix"
     return f"{name}.unclassified"
 
 
